@@ -496,3 +496,672 @@ def _present_label(test_expr, cmp_):
             if isinstance(e.op, ast.And) and not positive:
                 return (False != neg)      # present => conjunction false
     return None
+
+
+# ---------------------------------------------------------------------------
+# T3  dirty => recompute
+# ---------------------------------------------------------------------------
+
+def _usi_inputs(prog):
+    """Attributes update_shell_info reads and does not itself write."""
+    res = resolver(prog)
+    f = prog.func('Sampler.update_shell_info')
+    d = res.direct(f)
+    reads = {a for c, a in d.reads if c == 'Sampler'}
+    writes = {a for c, a, k in d.writes if c == 'Sampler'}
+    return reads - writes, writes
+
+
+def _recompute_nodes(func, cfg):
+    """-> (list of (node id, index expr) for update_shell_info(i) calls,
+            set of node ids that recompute every shell)"""
+    calls, alls = [], set()
+    selfn = func.self_name
+    for n in walk_no_nested(func.node):
+        if isinstance(n, ast.Call) and dotted(n.func) == '%s.update_shell_info' % selfn and \
+                n.args and cfg.has(n):
+            calls.append((cfg.node_of(n).id, n.args[0], n))
+        if isinstance(n, ast.Assign):
+            for t in n.targets:
+                if isinstance(t, ast.Attribute) and isinstance(t.value, ast.Name) and \
+                        t.value.id == selfn and t.attr == 'discard_exploration' and cfg.has(n):
+                    alls.add(cfg.node_of(n).id)      # the setter recomputes every shell
+    # update_shell_info(i) inside `for i in range(len(self.<per-shell list>))`
+    for lp in walk_no_nested(func.node):
+        if isinstance(lp, ast.For) and isinstance(lp.target, ast.Name) and \
+                isinstance(lp.iter, ast.Call) and dotted(lp.iter.func) == 'range' and \
+                len(lp.iter.args) == 1 and isinstance(lp.iter.args[0], ast.Call) and \
+                dotted(lp.iter.args[0].func) == 'len' and lp.iter.args[0].args and \
+                root_attr(lp.iter.args[0].args[0], selfn):
+            for nid, idx, call in calls:
+                if isinstance(idx, ast.Name) and idx.id == lp.target.id and \
+                        any(call is s for s in ast.walk(lp)):
+                    alls.add(cfg.node_of(lp).id)
+    return calls, alls
+
+
+def rule_T3(ctx, rid='T3'):
+    ctx.rule(rid, 'dirty => recompute: every write to an input of update_shell_info for an '
+             'existing shell i (its samples, its proposal count, the discard flag, the phase '
+             'flag, the exploration boundaries, the state of its bound) is followed on every '
+             'path to the exit by update_shell_info(i), by a recomputation of every shell, or '
+             'by the discard setter')
+    from .exprs import ekey
+    prog = ctx.program
+    inputs, outputs = _usi_inputs(prog)
+    ctx.require({'log_l', 'shell_n_sample', '_discard_exploration', 'explored'} <= inputs,
+                'update_shell_info no longer reads its expected inputs (got %s)' % sorted(inputs))
+    ctx.extra['update_shell_info_inputs'] = sorted(inputs)
+    S = prog.cls('Sampler')
+    n = 0
+    for name, f in sorted(S.methods.items()):
+        if f.name in ('__init__', 'update_shell_info'):
+            continue
+        cfg = cfg_of(f)
+        selfn = f.self_name
+        calls, alls = _recompute_nodes(f, cfg)
+        params = [p for p in f.params if p != selfn]
+        dirty = []      # (node, attr, index expr or None, text)
+        for st in walk_no_nested(f.node):
+            tg = []
+            if isinstance(st, ast.Assign):
+                tg = st.targets
+            elif isinstance(st, ast.AugAssign):
+                tg = [st.target]
+            for t in tg:
+                ra = root_attr(t, selfn)
+                if not ra or ra[0] not in inputs or not cfg.has(st):
+                    continue
+                if ra[0] == 'bounds':
+                    continue     # structural changes of the bound list: lockstep + T6
+                if ra[1] and ra[1][0][0] == 'idx':
+                    dirty.append((cfg.node_of(st).id, ra[0], ra[1][0][1], unparse(t)))
+                elif not ra[1]:
+                    if ra[0] in ('log_l',):
+                        continue   # rebinding the whole list (constructor-style)
+                    if isinstance(st, ast.Assign) and _is_push_or_delete(st.value, t):
+                        continue   # a shell record is created / removed: lockstep (L1)
+                    dirty.append((cfg.node_of(st).id, ra[0], None, unparse(t)))
+            # sampling from a bound changes its volume estimate
+            if isinstance(st, ast.Call) and dotted(st.func) == '%s.sample_shell' % selfn and \
+                    st.args and cfg.has(st):
+                dirty.append((cfg.node_of(st).id, 'bounds[i].log_v', st.args[0], unparse(st)[:40]))
+        for nid, attr, idx, text in dirty:
+            n += 1
+            rec = set(alls)
+            if idx is not None:
+                ik = ekey(cfg, nid, idx)
+                for cn, cidx, call in calls:
+                    if ekey(cfg, cn, cidx) == ik or _guarded_equal(cfg, nid, idx, cidx):
+                        rec.add(cn)
+            ok = bool(rec) and cfg.must_pass(nid, cfg.exit.id, rec)
+            ctx.ob(rid, '%s:dirty(%s)' % (f.qualname, _t3_key(attr, idx)), ok,
+                   f.where(cfg.nodes[nid].ast),
+                   '`%s` changes an input of the statistics of shell `%s`; %s' % (
+                       text, unparse(idx) if idx is not None else 'all',
+                       'the statistics are recomputed on every path to the exit' if ok else
+                       'some path to the exit does not recompute them: stale '
+                       'shell_n / shell_log_v / shell_log_l / shell_n_eff'))
+    ctx.require(n >= 6, 'T3 found only %d dirty sites (floor 6)' % n)
+    # update_shell_info is a pure recomputation: reads of its outputs follow its own writes
+    f = prog.func('Sampler.update_shell_info')
+    cfg = cfg_of(f)
+    for out_attr in sorted(outputs):
+        wn, rn = set(), set()
+        for st in walk_no_nested(f.node):
+            if isinstance(st, (ast.Assign, ast.AugAssign)) and cfg.has(st):
+                for t in (st.targets if isinstance(st, ast.Assign) else [st.target]):
+                    ra = root_attr(t, f.self_name)
+                    if ra and ra[0] == out_attr:
+                        wn.add(cfg.node_of(st).id)
+                        if isinstance(st, ast.AugAssign):
+                            rn.add(cfg.node_of(st).id)
+        for sub in walk_no_nested(f.node):
+            if isinstance(sub, ast.Attribute) and isinstance(sub.ctx, ast.Load) and \
+                    sub.attr == out_attr and isinstance(sub.value, ast.Name) and \
+                    sub.value.id == f.self_name and cfg.has(sub):
+                rn.add(cfg.node_of(sub).id)
+        # a read is fine if a write dominates it (or it is the written statement's own target)
+        bad = []
+        for r in rn:
+            if r in wn and not isinstance(cfg.nodes[r].ast, ast.AugAssign):
+                continue
+            if not any(w != r and cfg.dominates(w, r) for w in wn):
+                if r in wn and isinstance(cfg.nodes[r].ast, ast.AugAssign):
+                    bad.append(r)
+                elif r not in wn:
+                    bad.append(r)
+        ctx.ob(rid, 'Sampler.update_shell_info:pure-recomputation(%s)' % out_attr, not bad,
+               f.where(), 'statistic %r is recomputed from the stored samples, never from its '
+               'own previous value' % out_attr if not bad else
+               'statistic %r is read before it is recomputed (line %s): the result depends on '
+               'history, not only on the stored samples' % (
+                   out_attr, [cfg.nodes[b].lineno for b in bad]))
+    return n
+
+
+def _is_push_or_delete(value, target):
+    """np.append(T, x) / np.delete(T, i): one per-shell record added or removed."""
+    return isinstance(value, ast.Call) and dotted(value.func) in ('np.append', 'np.delete') \
+        and value.args and unparse(value.args[0]) == unparse(target)
+
+
+def _t3_key(attr, idx):
+    if idx is None:
+        return attr
+    t = unparse(idx)
+    return '%s[%s]' % (attr, t if len(t) < 12 else 'expr')
+
+
+def _guarded_equal(cfg, nid, a, b):
+    """Constant index `a` at node nid equals name `b` because a dominating guard
+    `b == a` holds."""
+    ca = const_value(a)
+    if ca is None or not isinstance(b, ast.Name):
+        return False
+    for t, lab in cfg.strict_guards(nid):
+        te = cfg.nodes[t].expr
+        if lab is not True:
+            continue
+        conj = te.values if isinstance(te, ast.BoolOp) and isinstance(te.op, ast.And) else [te]
+        for c in conj:
+            if isinstance(c, ast.Compare) and len(c.ops) == 1 and isinstance(c.ops[0], ast.Eq) \
+                    and isinstance(c.left, ast.Name) and c.left.id == b.id and \
+                    const_value(c.comparators[0], object()) == ca:
+                return True
+    return False
+
+
+# ---------------------------------------------------------------------------
+# T4  primed before publish
+# ---------------------------------------------------------------------------
+
+def rule_T4(ctx, rid='T4'):
+    ctx.rule(rid, 'primed-before-publish: every bound appended to Sampler.bounds whose volume '
+             'getter can sample lazily has had sample()/log_v evaluated on every path from its '
+             'construction, so that log_v never draws random numbers afterwards')
+    prog = ctx.program
+    res = resolver(prog)
+    f = prog.func('Sampler.add_bound')
+    cfg = cfg_of(f)
+    n = 0
+    for c in walk_no_nested(f.node):
+        if not (isinstance(c, ast.Call) and isinstance(c.func, ast.Attribute) and
+                c.func.attr in ('append', 'insert') and
+                root_attr(c.func.value, f.self_name) and
+                root_attr(c.func.value, f.self_name)[0] == 'bounds' and cfg.has(c)):
+            continue
+        n += 1
+        pay = c.args[-1]
+        a_nid = cfg.node_of(c).id
+        types = res.type_of(f, pay) or set()
+        lazy = []
+        for t in types:
+            lv = prog.classes[t].methods.get('log_v')
+            if lv is not None and res.trans(lv).draws:
+                lazy.append(t)
+        if not types:
+            ctx.ob(rid, 'Sampler.add_bound:publish(untyped)', False, f.where(c),
+                   'class of the appended bound `%s` cannot be determined' % unparse(pay))
+            continue
+        if not lazy:
+            ctx.ob(rid, 'Sampler.add_bound:publish(%s)' % '|'.join(sorted(types)), True,
+                   f.where(c), 'log_v of %s never samples' % sorted(types))
+            continue
+        ok = False
+        why = 'appended bound is not a local constructed in this function'
+        if isinstance(pay, ast.Name):
+            defs = cfg.defs_at(a_nid, pay.id)
+            primers = set()
+            for s in walk_no_nested(f.node):
+                if isinstance(s, ast.Call) and isinstance(s.func, ast.Attribute) and \
+                        s.func.attr == 'sample' and isinstance(s.func.value, ast.Name) and \
+                        s.func.value.id == pay.id and cfg.has(s):
+                    primers.add(cfg.node_of(s).id)
+                if isinstance(s, ast.Attribute) and s.attr == 'log_v' and \
+                        isinstance(s.value, ast.Name) and s.value.id == pay.id and cfg.has(s):
+                    primers.add(cfg.node_of(s).id)
+            primers.discard(a_nid)
+            ok = bool(defs) and bool(primers) and all(
+                cfg.must_pass(d, a_nid, primers) for d in defs)
+            why = ('sample()/log_v is evaluated on every path between construction and '
+                   'publication' if ok else
+                   'a path from the construction of `%s` to its publication evaluates neither '
+                   'sample() nor log_v: the first log_v afterwards (an accessor, the discard '
+                   'setter) would draw random numbers' % pay.id)
+        ctx.ob(rid, 'Sampler.add_bound:publish(%s)' % '|'.join(sorted(lazy)), ok, f.where(c), why)
+    ctx.require(n >= 2, 'T4 found %d publication sites (floor 2)' % n)
+    return n
+
+
+# ---------------------------------------------------------------------------
+# T5  loop contract of run
+# ---------------------------------------------------------------------------
+
+def _conjuncts(e):
+    if isinstance(e, ast.BoolOp) and isinstance(e.op, ast.And):
+        out = []
+        for v in e.values:
+            out += _conjuncts(v)
+        return out
+    return [e]
+
+
+def rule_T5(ctx, rid='T5'):
+    ctx.rule(rid, 'loop contract of run(): the while test is a conjunction containing the strict '
+             'budget test n_like < n_like_max and `not success`; likelihood evaluations happen '
+             'only inside that loop; every iteration adds at most one batch and an iteration '
+             'without a batch changes nothing; add_samples evaluates exactly one batch; the '
+             'success predicate (explored, every shell >= n_shell, n_eff target) is the same '
+             'expression before and inside the loop and is the returned value')
+    prog = ctx.program
+    res = resolver(prog)
+    run = prog.func('Sampler.run')
+    cfg = cfg_of(run)
+    loops = [n for n in cfg.nodes if n.kind == 'test' and isinstance(n.ast, ast.While)]
+    ctx.require(len(loops) == 1, 'Sampler.run: expected one while loop, found %d' % len(loops))
+    W = loops[0]
+    conj = _conjuncts(W.expr)
+    # (a) budget
+    budget = None
+    for c in conj:
+        if isinstance(c, ast.Compare) and len(c.ops) == 1:
+            l, r = dotted(c.left), dotted(c.comparators[0])
+            if l == 'self.n_like' and r == 'n_like_max':
+                budget = ('<' if isinstance(c.ops[0], ast.Lt) else type(c.ops[0]).__name__)
+            if r == 'self.n_like' and l == 'n_like_max':
+                budget = ('<' if isinstance(c.ops[0], ast.Gt) else type(c.ops[0]).__name__)
+    ctx.ob(rid, 'Sampler.run:budget-guard', budget == '<', run.where(W.ast),
+           'the loop continues only while n_like < n_like_max (strict)' if budget == '<' else
+           ('the loop test has no conjunct comparing n_like with n_like_max' if budget is None
+            else 'the budget comparison is %s, not strict <: one more batch starts when the '
+            'limit has been reached' % budget))
+    ns = any(isinstance(c, ast.UnaryOp) and isinstance(c.op, ast.Not) and
+             isinstance(c.operand, ast.Name) and c.operand.id == 'success' for c in conj)
+    ctx.ob(rid, 'Sampler.run:stops-on-success', ns, run.where(W.ast),
+           'the loop test contains `not success`' if ns else
+           'the loop does not stop when the success predicate holds')
+    to = any(isinstance(c, ast.Compare) and any(isinstance(x, ast.Name) and x.id == 'timeout'
+                                               for x in ast.walk(c)) for c in conj)
+    ctx.ob(rid, 'Sampler.run:timeout-guard', to, run.where(W.ast),
+           'the loop test compares elapsed time with the timeout')
+    # (b) evaluations only inside the loop
+    body = set()
+    for s, lab in W.succ:
+        if lab is True:
+            body = cfg.reach(s, avoid={W.id}, include_src=True)
+    adds = [c for c in walk_no_nested(run.node) if isinstance(c, ast.Call) and
+            dotted(c.func) == 'self.add_samples' and cfg.has(c)]
+    ctx.require(adds, 'Sampler.run no longer calls add_samples')
+    for c in adds:
+        ok = cfg.node_of(c).id in body
+        ctx.ob(rid, 'Sampler.run:batch-inside-loop', ok, run.where(c),
+               'add_samples is called inside the guarded loop' if ok else
+               'add_samples is called outside the guarded loop: the budget does not apply')
+    # who may call add_samples / evaluate_likelihood
+    for target, allowed in (('add_samples', {'Sampler.run'}),
+                            ('evaluate_likelihood', {'Sampler.add_samples'})):
+        for f in prog.functions.values():
+            for c in walk_no_nested(f.node):
+                if isinstance(c, ast.Call) and isinstance(c.func, ast.Attribute) and \
+                        c.func.attr == target:
+                    ctx.ob(rid, '%s:caller(%s)' % (target, f.qualname), f.qualname in allowed,
+                           f.where(c), '%s is called from %s' % (target, f.qualname))
+    # (c) at most one batch per iteration; no batch => no state change
+    add_nodes = {cfg.node_of(c).id for c in adds}
+    paths = enumerate_paths_from(cfg, W, body)
+    multi = [p for p in paths if sum(1 for n in p if n in add_nodes) > 1]
+    ctx.ob(rid, 'Sampler.run:one-batch-per-iteration', not multi, run.where(W.ast),
+           'each of the %d paths through one iteration adds at most one batch' % len(paths)
+           if not multi else 'an iteration can add %d batches (lines %s)' % (
+               max(sum(1 for n in p if n in add_nodes) for p in multi),
+               [cfg.nodes[n].lineno for n in multi[0] if n in add_nodes]))
+    zero = [p for p in paths if not any(n in add_nodes for n in p)]
+    bad_zero = []
+    for p in zero:
+        for nid in p:
+            n = cfg.nodes[nid]
+            if n.kind == 'stmt' and isinstance(n.ast, (ast.Assign, ast.AugAssign)):
+                tg = n.ast.targets if isinstance(n.ast, ast.Assign) else [n.ast.target]
+                if any(root_attr(t, 'self') for t in tg):
+                    bad_zero.append(n.lineno)
+            if n.kind == 'stmt' and isinstance(n.ast, ast.Expr) and \
+                    isinstance(n.ast.value, ast.Call) and \
+                    (dotted(n.ast.value.func) or '').startswith('self.') and \
+                    not (dotted(n.ast.value.func) or '').startswith('self.print_status'):
+                bad_zero.append(n.lineno)
+    ctx.ob(rid, 'Sampler.run:idle-iteration-is-pure', not bad_zero, run.where(W.ast),
+           'an iteration that adds no batch changes no state' if not bad_zero else
+           'an iteration without a batch still changes state at lines %s' % sorted(set(bad_zero)))
+    # (d) add_samples evaluates exactly one batch on every path
+    f = prog.func('Sampler.add_samples')
+    c2 = cfg_of(f)
+    ev = {c2.node_of(c).id for c in walk_no_nested(f.node) if isinstance(c, ast.Call) and
+          dotted(c.func) == 'self.evaluate_likelihood' and c2.has(c)}
+    ok = bool(ev) and c2.must_pass(c2.entry.id, c2.exit.id, ev) and \
+        not any(c2.can_reach(a, b) for a in ev for b in ev)
+    ctx.ob(rid, 'Sampler.add_samples:exactly-one-evaluation', ok, f.where(),
+           'every path through add_samples evaluates the likelihood batch exactly once' if ok
+           else 'some path through add_samples evaluates the batch zero or several times')
+    # (e) success predicate
+    assigns = [n for n in cfg.nodes if n.kind == 'stmt' and isinstance(n.ast, ast.Assign) and
+               isinstance(n.ast.targets[0], ast.Name) and n.ast.targets[0].id == 'success']
+    ctx.require(len(assigns) >= 2, 'Sampler.run: assignments of `success` not found')
+    texts = {ast.dump(a.ast.value) for a in assigns}
+    ctx.ob(rid, 'Sampler.run:success-same-expression', len(texts) == 1, run.where(assigns[0].ast),
+           'the success predicate is the same expression at all %d assignments' % len(assigns)
+           if len(texts) == 1 else 'the success predicate differs between its assignments')
+    for a in assigns:
+        cjs = _conjuncts(a.ast.value)
+
+        def reads(c):
+            out = set()
+            for sub in ast.walk(c):
+                if isinstance(sub, ast.Attribute) and dotted(sub):
+                    out.add(dotted(sub))
+                elif isinstance(sub, ast.Name):
+                    out.add(sub.id)
+            return out
+        no_or = not any(isinstance(sub, ast.BoolOp) and isinstance(sub.op, ast.Or)
+                        for sub in ast.walk(a.ast.value))
+        need = {'explored': any(dotted(c) == 'self.explored' for c in cjs),
+                'n_shell': any({'self.shell_n', 'n_shell'} <= reads(c) for c in cjs),
+                'n_eff': any({'self.n_eff', 'n_eff'} <= reads(c) for c in cjs)}
+        okp = all(need.values()) and no_or
+        ctx.ob(rid, 'Sampler.run:success-predicate@%d' % assigns.index(a), okp, run.where(a.ast),
+               'success is a conjunction over explored, the per-shell minimum and the n_eff '
+               'target' if okp else
+               'success predicate `%s` is not a conjunction over the three termination criteria '
+               '(missing: %s)' % (unparse(a.ast.value), [k for k, v in need.items() if not v]))
+    inloop = [a for a in assigns if a.id in body]
+    ok = bool(inloop) and all(cfg.must_pass(x, W.id, {a.id for a in inloop})
+                              for x in add_nodes)
+    ctx.ob(rid, 'Sampler.run:success-recomputed-after-batch', ok, run.where(W.ast),
+           'the success predicate is recomputed after every batch before the loop test')
+    rets = [n for n in cfg.nodes if n.kind == 'stmt' and isinstance(n.ast, ast.Return)]
+    okr = bool(rets) and all(isinstance(r.ast.value, ast.Name) and r.ast.value.id == 'success'
+                             for r in rets)
+    ctx.ob(rid, 'Sampler.run:returns-success', okr, run.where(rets[0].ast if rets else None),
+           'run() returns the success predicate' if okr else
+           'run() does not return the success predicate')
+    return len(paths)
+
+
+def enumerate_paths_from(cfg, W, body):
+    """Paths through one iteration of while-loop W (from its true successor back to W
+    or out of the function), as lists of node ids."""
+    from .cfg import enumerate_paths
+    start = [s for s, lab in W.succ if lab is True][0]
+    out = []
+    for path, preds, end in enumerate_paths(cfg, start=start, max_loop=1, stop_at={W.id}):
+        out.append(path)
+    return out
+
+
+# ---------------------------------------------------------------------------
+# T6  phase guards
+# ---------------------------------------------------------------------------
+
+def _under_not_explored(cfg, nid):
+    for t, lab in cfg.strict_guards(nid):
+        e = cfg.nodes[t].expr
+        txt = unparse(e).replace(' ', '')
+        if txt == 'notself.explored' and lab is True:
+            return True
+        if txt == 'self.explored' and lab is False:
+            return True
+        if txt == 'len(self.bounds)==0' and lab is True:
+            return True
+    return False
+
+
+def rule_T6(ctx, rid='T6'):
+    ctx.rule(rid, 'phase guards: add_bound is called, and shells are removed or filtered, only '
+             'under `not self.explored` (or for the very first bound); the removal of empty '
+             'shells is followed on every path by explored = True; add_bound has no other caller')
+    from .sampler_rules import SamplerTracker, G_SHELL
+    from .lockstep import STRUCTURAL
+    prog = ctx.program
+    run = prog.func('Sampler.run')
+    cfg = cfg_of(run)
+    n = 0
+    for c in walk_no_nested(run.node):
+        if isinstance(c, ast.Call) and dotted(c.func) == 'self.add_bound' and cfg.has(c):
+            n += 1
+            ok = _under_not_explored(cfg, cfg.node_of(c).id)
+            ctx.ob(rid, 'Sampler.run:add_bound-guard@%d' % n, ok, run.where(c),
+                   'add_bound is called under `not self.explored` / for the first bound' if ok
+                   else 'add_bound can be called after exploration has finished: the set of '
+                   'bounds is not frozen')
+    ctx.require(n >= 2, 'Sampler.run: add_bound call sites not found')
+    for f in prog.functions.values():
+        if f.qualname == 'Sampler.run':
+            continue
+        for c in walk_no_nested(f.node):
+            if isinstance(c, ast.Call) and isinstance(c.func, ast.Attribute) and \
+                    c.func.attr == 'add_bound':
+                ctx.ob(rid, 'add_bound:caller(%s)' % f.qualname, False, f.where(c),
+                       'add_bound is called from %s, outside the phase guard of run()'
+                       % f.qualname)
+    # destructive updates of the per-shell records in run
+    tr = SamplerTracker(run, G_SHELL.members + ['shell_n_sample_exp', 'shell_end_exp'])
+    dels = []
+    for nid, es in tr.all_events().items():
+        for e in es:
+            if e.member in G_SHELL.members and e.op in ('DELETE', 'SELECT', 'SLICE', 'INIT',
+                                                        'REBUILD', 'REORDER', 'XFORM', 'SET'):
+                dels.append((nid, e))
+    ctx.require(dels, 'Sampler.run: removal of empty shells not found')
+    exp_true = {x.id for x in cfg.nodes if x.kind == 'stmt' and isinstance(x.ast, ast.Assign)
+                and dotted(x.ast.targets[0]) == 'self.explored' and
+                isinstance(x.ast.value, ast.Constant) and x.ast.value.value is True}
+    seen = set()
+    for nid, e in dels:
+        key = (e.member, e.op)
+        if key in seen:
+            continue
+        seen.add(key)
+        ok1 = _under_not_explored(cfg, nid)
+        ok2 = bool(exp_true) and cfg.must_pass(nid, cfg.exit.id, exp_true) and \
+            all(cfg.must_pass(nid, w, exp_true) for w in
+                [x.id for x in cfg.nodes if x.kind == 'test' and isinstance(x.ast, ast.While)])
+        ctx.ob(rid, 'Sampler.run:%s(%s)' % (e.op.lower(), e.member), ok1 and ok2,
+               run.where(e.ast),
+               'shell records are only reduced during exploration, immediately before the '
+               'transition' if ok1 and ok2 else
+               ('shell record %r is reduced outside the `not self.explored` branch' % e.member
+                if not ok1 else 'after reducing %r a path continues without setting explored = '
+                'True: shells could be removed more than once' % e.member))
+    return n
+
+
+# ---------------------------------------------------------------------------
+# T8  proposal accounting
+# ---------------------------------------------------------------------------
+
+def rule_T8i(ctx, rid='T8'):
+    """sample_shell: request N - c, count the request before filtering, advance c by the
+    rows kept, return exactly those rows."""
+    from .exprs import ekey
+    from .lockstep import Tracker
+    ctx.rule(rid, 'proposal accounting: (i) the batch loop `while c < N` requests N - c '
+             'proposals, adds the request size to the proposal counter before any filtering, '
+             'advances c only by the number of rows that survive row-subsetting of that request, '
+             'and returns the concatenation of exactly those rows; (ii) wherever a bound adds K '
+             'to its proposal counter, it adds K - len(kept) to its rejection counter for the '
+             'very rows it stacks into its cache')
+    prog = ctx.program
+    f = prog.func('Sampler.sample_shell')
+    cfg = cfg_of(f)
+    loops = [n for n in cfg.nodes if n.kind == 'test' and isinstance(n.ast, ast.While)]
+    ctx.require(len(loops) == 1, 'Sampler.sample_shell: expected one while loop')
+    W = loops[0]
+    t = W.expr
+    ctx.require(isinstance(t, ast.Compare) and len(t.ops) == 1 and
+                isinstance(t.left, ast.Name), 'sample_shell: loop test is not `c < N`')
+    c_name = t.left.id
+    N = t.comparators[0]
+    strict = isinstance(t.ops[0], ast.Lt)
+    okN = dotted(N) == 'self.n_batch'
+    ctx.ob(rid, 'Sampler.sample_shell:batch-size', strict and okN, f.where(W.ast),
+           'the loop runs while %s < self.n_batch' % c_name if strict and okN else
+           'the loop bound is `%s`, not `%s < self.n_batch`' % (unparse(t), c_name))
+    # the request
+    sample_calls = []
+    for n in walk_no_nested(W.ast):
+        if isinstance(n, ast.Call) and isinstance(n.func, ast.Attribute) and \
+                n.func.attr == 'sample' and n.args and \
+                root_attr(n.func.value, f.self_name) and \
+                root_attr(n.func.value, f.self_name)[0] == 'bounds':
+            sample_calls.append(n)
+    ctx.require(len(sample_calls) == 1, 'sample_shell: expected one bound.sample call in the '
+                'loop, found %d' % len(sample_calls))
+    sc = sample_calls[0]
+    snid = cfg.node_of(sc).id
+    want = ast.BinOp(left=N, op=ast.Sub(), right=ast.Name(id=c_name, ctx=ast.Load()))
+    ast.fix_missing_locations(want)
+    req_key = ekey(cfg, snid, sc.args[0])
+    ok = req_key == ekey(cfg, snid, want)
+    ctx.ob(rid, 'Sampler.sample_shell:request', ok, f.where(sc),
+           'each round requests exactly the missing rows (N - c)' if ok else
+           'a round requests `%s` proposals instead of the missing N - c' % unparse(sc.args[0]))
+    # which shell is sampled
+    ra = root_attr(sc.func.value, f.self_name)
+    idx = ra[1][0][1] if ra[1] else None
+    ok = isinstance(idx, ast.Name) and idx.id == f.params[1]
+    ctx.ob(rid, 'Sampler.sample_shell:samples-requested-shell', ok, f.where(sc),
+           'proposals are drawn from self.bounds[%s]' % (unparse(idx) if idx is not None else '?'))
+    # the proposal counter
+    incs = [n for n in cfg.nodes if n.kind == 'stmt' and isinstance(n.ast, ast.AugAssign) and
+            isinstance(n.ast.op, ast.Add) and isinstance(n.ast.target, ast.Name)]
+    prop = [n for n in incs if ekey(cfg, n.id, n.ast.value) == req_key and
+            n.ast.target.id != c_name]
+    ctx.ob(rid, 'Sampler.sample_shell:proposals-counted', len(prop) == 1, f.where(sc),
+           'the request size is added to the proposal counter `%s`' % prop[0].ast.target.id
+           if len(prop) == 1 else 'no counter is advanced by the request size (found %d)'
+           % len(prop))
+    # the rows
+    tgt = cfg.nodes[snid].ast
+    ctx.require(isinstance(tgt, ast.Assign) and isinstance(tgt.targets[0], ast.Name),
+                'sample_shell: sample result is not bound to a local')
+    pname = tgt.targets[0].id
+    tr = Tracker(f, [], locals_=[pname])
+    bad_ops = []
+    for nid, es in tr.all_events().items():
+        for e in es:
+            if e.member == pname and e.op not in ('SELECT', 'SET', 'MARK', 'MAP') and \
+                    nid in cfg.reach(W.id, avoid=set(), include_src=False) and \
+                    cfg.can_reach(nid, W.id):
+                bad_ops.append(e)
+    ctx.ob(rid, 'Sampler.sample_shell:rows-only-subset', not bad_ops, f.where(),
+           'inside the loop the proposals are only ever reduced by row selection' if not bad_ops
+           else 'the proposals are changed by %s inside the loop' % [e.op for e in bad_ops])
+    cinc = [n for n in incs if n.ast.target.id == c_name]
+    okc = len(cinc) == 1 and isinstance(cinc[0].ast.value, ast.Call) and \
+        dotted(cinc[0].ast.value.func) == 'len' and \
+        isinstance(cinc[0].ast.value.args[0], ast.Name) and \
+        cinc[0].ast.value.args[0].id == pname
+    ctx.ob(rid, 'Sampler.sample_shell:advance-by-kept-rows', okc, f.where(cinc[0].ast) if cinc
+           else f.where(), '%s advances by len(%s)' % (c_name, pname) if okc else
+           'the row counter does not advance by the number of rows kept')
+    # appended to the output list: same value
+    apps = [n for n in walk_no_nested(W.ast) if isinstance(n, ast.Call) and
+            isinstance(n.func, ast.Attribute) and n.func.attr == 'append' and
+            isinstance(n.func.value, ast.Name) and n.args and isinstance(n.args[0], ast.Name)
+            and n.args[0].id == pname]
+    oka = False
+    lname = None
+    if okc and len(apps) == 1:
+        a_nid = cfg.node_of(apps[0]).id
+        oka = cfg.defs_at(a_nid, pname) == cfg.defs_at(cinc[0].id, pname)
+        lname = apps[0].func.value.id
+    ctx.ob(rid, 'Sampler.sample_shell:collect-kept-rows', oka, f.where(apps[0]) if apps else
+           f.where(), 'the rows that advance the counter are the rows collected' if oka else
+           'the rows collected differ from the rows counted')
+    rets = [n for n in walk_no_nested(f.node) if isinstance(n, ast.Return)]
+    okr = bool(rets)
+    for r in rets:
+        first = r.value.elts[0] if isinstance(r.value, ast.Tuple) else r.value
+        second = r.value.elts[1] if isinstance(r.value, ast.Tuple) and \
+            len(r.value.elts) > 1 else None
+        rn = cfg.node_of(r).id
+        from .exprs import ekey as _k
+        want1 = 'np.concatenate(%s)' % lname
+        inl = first
+        if isinstance(first, ast.Name):
+            for d in cfg.defs_at(rn, first.id):
+                dn = cfg.nodes[d]
+                if dn.kind == 'stmt' and isinstance(dn.ast, ast.Assign):
+                    inl = dn.ast.value
+        if unparse(inl) != want1:
+            okr = False
+        if not (len(prop) == 1 and isinstance(second, ast.Name) and
+                second.id == prop[0].ast.target.id):
+            okr = False
+    ctx.ob(rid, 'Sampler.sample_shell:returns-rows-and-proposal-count', okr, f.where(),
+           'returns the concatenated kept rows and the proposal counter' if okr else
+           'the return value is not (concatenation of the kept rows, proposal counter, ...)')
+    return 1
+
+
+def rule_T8ii(ctx, qualname, rid='T8'):
+    """n_sample += K ; n_reject += K - len(kept) ; cache = vstack([cache, kept])"""
+    from .exprs import ekey
+    prog = ctx.program
+    f = prog.func(qualname)
+    cfg = cfg_of(f)
+    selfn = f.self_name
+    augs = [n for n in cfg.nodes if n.kind == 'stmt' and isinstance(n.ast, ast.AugAssign) and
+            isinstance(n.ast.op, ast.Add) and root_attr(n.ast.target, selfn) and
+            not root_attr(n.ast.target, selfn)[1]]
+    ns = [n for n in augs if root_attr(n.ast.target, selfn)[0] == 'n_sample' and
+          isinstance(n.ast.value, ast.Name)]
+    nr = [n for n in augs if root_attr(n.ast.target, selfn)[0] == 'n_reject' and
+          isinstance(n.ast.value, ast.BinOp)]
+    ctx.require(ns and nr, '%s: local proposal/rejection accounting not found' % qualname)
+    for a in ns:
+        K = a.ast.value
+        # paired rejection update in the same block
+        pair = [r for r in nr if cfg.dominates(a.id, r.id) or cfg.dominates(r.id, a.id)]
+        pair = [r for r in pair if cfg.guards(r.id) == cfg.guards(a.id)]
+        ok = False
+        why = 'no rejection update is paired with the proposal update'
+        for r in pair:
+            v = r.ast.value
+            if isinstance(v.op, ast.Sub) and ekey(cfg, r.id, v.left) == ekey(cfg, a.id, K) and \
+                    isinstance(v.right, ast.Call) and dotted(v.right.func) == 'len' and \
+                    isinstance(v.right.args[0], ast.Name):
+                kept = v.right.args[0].id
+                # the cache update stacks the same value
+                caches = [c for c in cfg.nodes if c.kind == 'stmt' and
+                          isinstance(c.ast, ast.Assign) and
+                          root_attr(c.ast.targets[0], selfn) and
+                          root_attr(c.ast.targets[0], selfn)[0] == 'points' and
+                          any(isinstance(s, ast.Name) and s.id == kept
+                              for s in ast.walk(c.ast.value)) and
+                          cfg.guards(c.id) == cfg.guards(a.id)]
+                same = [c for c in caches if cfg.defs_at(c.id, kept) == cfg.defs_at(r.id, kept)]
+                if same:
+                    ok = True
+                    why = ('+= %s proposals, += %s - len(%s) rejections, and `%s` is what is '
+                           'stacked into the cache' % (unparse(K), unparse(K), kept, kept))
+                else:
+                    why = ('rejections are computed from `%s` but a different value is stacked '
+                           'into the cache' % kept)
+            else:
+                why = 'rejection update `%s` is not K - len(kept) for the K added to n_sample' \
+                    % unparse(v)
+        ctx.ob(rid, '%s:counters-describe-cache' % qualname, ok, f.where(a.ast), why)
+        # K is the number of proposals actually requested
+        req = False
+        for c in walk_no_nested(f.node):
+            if isinstance(c, ast.Call) and isinstance(c.func, ast.Attribute) and \
+                    c.func.attr in ('sample', 'multinomial') and c.args and cfg.has(c) and \
+                    cfg.guards(cfg.node_of(c).id) == cfg.guards(a.id):
+                if ekey(cfg, cfg.node_of(c).id, c.args[0]) == ekey(cfg, a.id, K):
+                    req = True
+        ctx.ob(rid, '%s:counter-is-request' % qualname, req, f.where(a.ast),
+               'the number added to n_sample is the number of proposals requested' if req else
+               'the number added to n_sample (`%s`) is not the number of proposals requested'
+               % unparse(K))
+    return len(ns)
